@@ -29,30 +29,20 @@ two crates, with the reason it cannot influence the output.
 * `env::var`: `TS_RS_EXPORT_DIR` (configuration);
 * lib.rs / serde_json.rs / tokio.rs `HashMap`/`HashSet`/`Mutex`: `impl TS for` those library types. -/
 def orderAllowList : List (String × String × Nat) := [
-  ("macros/src/attr/enum.rs", "HashMap", 1),
-  ("macros/src/attr/struct.rs", "HashMap", 1),
-  ("macros/src/deps.rs", "HashSet", 4),
-  ("macros/src/lib.rs", "HashMap", 1),
-  ("macros/src/lib.rs", "HashSet", 1),
-  ("ts-rs/src/export.rs", "HashMap", 1),
-  ("ts-rs/src/export.rs", "HashSet", 4),
-  ("ts-rs/src/export.rs", "BTreeMap", 3),
-  ("ts-rs/src/export.rs", "BTreeSet", 2),
-  ("ts-rs/src/export.rs", "TypeId", 3),
-  ("ts-rs/src/export.rs", "env::var", 1),
-  ("ts-rs/src/export.rs", "Mutex", 1),
-  ("ts-rs/src/export.rs", "OnceLock", 2),
-  ("ts-rs/src/lib.rs", "HashMap", 4),
-  ("ts-rs/src/lib.rs", "HashSet", 1),
-  ("ts-rs/src/lib.rs", "BTreeMap", 1),
-  ("ts-rs/src/lib.rs", "BTreeSet", 1),
-  ("ts-rs/src/lib.rs", "TypeId", 2),
-  ("ts-rs/src/lib.rs", "Mutex", 1),
-  ("ts-rs/src/serde_json.rs", "HashMap", 2),
-  ("ts-rs/src/tokio.rs", "Mutex", 1)]
+  ("macros", "HashMap", 3),     -- attr/enum.rs 1, attr/struct.rs 1, lib.rs 1
+  ("macros", "HashSet", 5),     -- deps.rs 4, lib.rs 1
+  ("ts-rs", "BTreeMap", 4),     -- export.rs 3, lib.rs 1
+  ("ts-rs", "BTreeSet", 3),     -- export.rs 2, lib.rs 1
+  ("ts-rs", "HashMap", 7),      -- export.rs 1, lib.rs 4, serde_json.rs 2
+  ("ts-rs", "HashSet", 4),      -- export.rs 3 (the `&mut HashSet` field of the visitor is a reference, not counted), lib.rs 1
+  ("ts-rs", "Mutex", 3),        -- export.rs 1, lib.rs 1, tokio.rs 1
+  ("ts-rs", "OnceLock", 2),     -- export.rs 2
+  ("ts-rs", "TypeId", 5),       -- export.rs 3, lib.rs 2
+  ("ts-rs", "env::var", 1)]     -- export.rs 1
 
 /-- **inventory = allow-list** (re-proved against the regenerated inventory on every run: a new
-hash container, environment read or thread primitive anywhere in the two crates breaks it) -/
+hash container, environment read or thread primitive anywhere in the two crates breaks it; the totals are per crate, so moving code
+between the files of a crate does not) -/
 theorem C13_inventory : Gen.orderInventory = orderAllowList := by decide
 
 /-- **the names a file imports are order-independent**: `generate_imports` first collects the visited
